@@ -5,7 +5,7 @@ import os
 from .common import *
 
 BRIDGE_BUGS_OFF = {"BugGetInfoHardcoded": False, "BugReadAheadToClient": False, "BugDropReplyOnClose": False,
-                   "BugPanicNoChild": False, "BugAbortAfterUpgrade": False}
+                   "BugPanicNoChild": False, "BugAbortAfterUpgrade": False, "BugStaleCacheAfterInfo": False}
 
 
 def check_C18(tier):
@@ -14,7 +14,7 @@ def check_C18(tier):
     bins = build_repo_bins(["varlink-cli"])
     env = {"VERIF_VARLINK_BIN": os.path.join(bins, "varlink")}
     thorough = tier == "thorough"
-    cfg = write_cfg(os.path.join(res.wd, "MC_Bridge.cfg"), spec="MCSpec", constants=dict(BRIDGE_BUGS_OFF, MaxLen=3 if thorough else 2, Emit=True),
+    cfg = write_cfg(os.path.join(res.wd, "MC_Bridge.cfg"), spec="MCSpec", constants=dict(BRIDGE_BUGS_OFF, MaxLen=3, Emit=True),
                     invariants=["Transparent", "SwitchesTargets", "UpgradePayloadToService", "ExitZero", "EmitCase"], deadlock=True)
     r = run_tlc("MC_Bridge", cfg, res.wd, workers=4, tag="bridge", timeout=1800)
     res.add_tlc(r)
@@ -23,8 +23,16 @@ def check_C18(tier):
     cases = r.replay
     resolver = [c for c in cases if c["mode"] == "resolver"]
     direct = [c for c in cases if c["mode"] == "direct"]
-    if thorough:
-        resolver = resolver[::3]
+    # sequences that come BACK to a target after visiting another one (the cached address must follow): all of them; of the other
+    # length-3 sequences a third (thorough) / none (quick)
+    def revisits(c):
+        q = c["reqs"]
+        return len(q) == 3 and q[0]["svc"] == q[2]["svc"] != q[1]["svc"]
+    short = [c for c in resolver if len(c["reqs"]) <= 2]
+    back = [c for c in resolver if revisits(c)]
+    rest = [c for c in resolver if len(c["reqs"]) == 3 and not revisits(c)]
+    resolver = short + (back + rest[::3] if thorough else back[::5])
+    direct = [c for c in direct if len(c["reqs"]) <= 2] + ([c for c in direct if len(c["reqs"]) == 3][::3] if thorough else [])
     fails, summ, _ = run_vh_parallel(vh, ["bridge"], resolver, n=6, timeout=2400, env=env)
     res.add_failures(fails, "resolver-mode")
     res.traces += summ["executions"]
@@ -37,7 +45,8 @@ def check_C18(tier):
     res.nontrivial = {json.dumps([c["mode"], c["reqs"], c["payload"], c["pipelined"]]) for c in cases if len(c["reqs"]) >= 1}
     for c in resolver[40:400:120]:
         res.sample({"mode": c["mode"], "requests": ["%s->%s" % (q["k"], q["svc"]) for q in c["reqs"]], "pipelined": c["pipelined"], "payload": c["payload"], "exit": c["exit"]})
-    res.rule = ("MC_Bridge: request sequences (<= 2/3) over {plain, more, oneway, error reply, request after which the service hangs up, service-info "
+    res.rule = ("MC_Bridge: request sequences (<= 3; quick replays all of length <= 2 and a fifth of those of length 3 that return to a target after "
+                "visiting another one, thorough all of those and a third of the rest) over {plain, more, oneway, error reply, request after which the service hangs up, service-info "
                 "query, upgrade at the end} x two services hosting different interfaces (targets switch) x client behaviour (pipelined / one at a "
                 "time) x upgraded payload (none / two lines, in the same write when pipelined) x mode {resolver lookup, --connect, --activate, "
                 "--bridge}; real `varlink bridge` process between pipes and real services; compared: client-visible reply sequence, payload at "
